@@ -2,6 +2,7 @@
    coordinate clamps, the block extent clamps and the source coordinate of gather_block) as translated from
    the Rust source on this run equal the expressions the hand-written model uses, without panics. *)
 From H263V Require Import base.Prelude base.Checked model.Types model.Syntax model.Recon gen.GenKGather bridge.KTactics.
+#[local] Hint Unfold lerp : kmodel.
 
 Lemma bridge_k_lerp a b m : 0 <= a <= 255 -> 0 <= b <= 255 -> k_lerp a b m = Ok (lerp a b m).
 Proof.
@@ -37,18 +38,18 @@ Qed.
 Lemma bridge_k_block_cols spr px :
   0 <= spr <= ihi Isize -> 0 <= px <= ihi Isize -> k_block_cols spr px = Ok (clamp 0 8 (spr - px)).
 Proof.
-  intros H1 H2. unfold k_block_cols. rewrite !(wrap_id Isize) by krange. ksteps. subst. reflexivity.
+  intros H1 H2. unfold k_block_cols. rewrite !(wrap_id Isize) by krange. ksteps. kfin.
 Qed.
 
 Lemma bridge_k_block_rows h py :
   0 <= h <= ihi Isize -> 0 <= py <= ihi Isize -> k_block_rows h py = Ok (clamp 0 8 (h - py)).
 Proof.
-  intros H1 H2. unfold k_block_rows. rewrite !(wrap_id Isize) by krange. ksteps. subst. reflexivity.
+  intros H1 H2. unfold k_block_rows. rewrite !(wrap_id Isize) by krange. ksteps. kfin.
 Qed.
 
 Lemma bridge_k_src_x px dx :
   0 <= px <= 4611686018427387904 -> -32768 <= dx <= 32767 -> k_src_x px dx = Ok (px + dx).
 Proof.
-  intros H1 H2. unfold k_src_x. rewrite !(wrap_id Isize) by krange. ksteps. subst. reflexivity.
+  intros H1 H2. unfold k_src_x. rewrite !(wrap_id Isize) by krange. ksteps. kfin.
 Qed.
 
